@@ -53,6 +53,8 @@ type Op struct {
 	HostileN int      `json:"hostile_n"` // parameter of the recipes
 	CancelMs int64    `json:"cancel_ms"` // >0: client goes away after that long
 	Restart  bool     `json:"restart"`   // not a request: restart the writer process (crash, durable DB state survives)
+	Enc      string   `json:"enc,omitempty"`   // honest transfer encoding of the whole body: "" | gzip | snappy (framed stream format)
+	TTLHdr   string   `json:"ttl_hdr,omitempty"` // X-Ttl-Days header value
 	Retry    int      `json:"retry,omitempty"` // the client sends the same body again (up to that many times) when it is answered 5xx
 }
 
@@ -151,6 +153,10 @@ func genOp(rt *rapid.T, l string, timerMs int, pool [][][2]string, hostile bool)
 			op.Hostile += "+" + rapid.SampledFrom(hostileRecipes).Draw(rt, l+".recipe2")
 		}
 		op.HostileN = rapid.IntRange(0, 100000).Draw(rt, l+".hn")
+	}
+	if op.Hostile == "" {
+		op.Enc = rapid.SampledFrom([]string{"", "", "", "gzip", "snappy"}).Draw(rt, l+".enc")
+		op.TTLHdr = rapid.SampledFrom([]string{"", "", "7", "0", "abc", "70000"}).Draw(rt, l+".ttlhdr")
 	}
 	if op.Hostile == "" && rapid.IntRange(0, 2).Draw(rt, l+".retry?") == 0 {
 		op.Retry = rapid.IntRange(1, 2).Draw(rt, l+".retry")
